@@ -196,8 +196,9 @@ def run(ctx, R, tier):
                 'Track polls its life-cycle readers in the order %s; static and streaming sounds poll pause, then resume' % q,
                 detail={'order': q}, where=rd.file)
 
-    from .c08 import storage_loops
+    from .c08 import storage_loops, drops
     storage_loops(F, R)
+    drops(F, R)
     from .c07 import write_unconditional
     write_unconditional(F, R, rule='B.C12.cmd', floor=6, fn_filter=lambda p: p.startswith('track::sub::') and 'andle' in p
                         and p.split('::')[-1] in ('pause', 'resume', 'resume_at'))
